@@ -68,7 +68,11 @@ class _ApproximateMarginalLogLikelihood(MarginalLogLikelihood, ABC):
         # Log prior term
         log_prior = torch.zeros_like(log_likelihood)
         for name, module, prior, closure, _ in self.named_priors():
-            log_prior.add_(prior.log_prob(closure(module)).sum().div(self.num_data))
+            prior_term = prior.log_prob(closure(module))
+            # Sum over the non-batch dimensions only (as ExactMarginalLogLikelihood does), so that each
+            # batch element gets the log prior of its own parameters rather than the total over all batch elements
+            prior_term = prior_term.view(*prior_term.shape[: log_likelihood.ndim], -1).sum(dim=-1)
+            log_prior.add_(prior_term.div(self.num_data))
 
         if self.combine_terms:
             return log_likelihood - kl_divergence + log_prior - added_loss
